@@ -17,6 +17,9 @@ package ipns
 //@ func (*Record).Validity
 //@   assumed
 //@   ensures err == nil ==> timeInstant(result0) == recEOL(rec)
+// a new reader object (so that what the decoder does to it is invisible to the caller)
+//@ func ext bytes.NewReader
+//@   ensures result != nil && fresh(result)
 //@ func ext (time.Time).After
 //@   ensures result == (timeInstant(t) > timeInstant(u))
 // bytes.Compare is a total preorder on contents, embedded into the integers by bytesRank
